@@ -101,7 +101,12 @@ pub fn gen_history<S: Sut>(seed: u64, cfg: Cfg, sweep: Option<Sweep>) -> Outcome
             }
         };
     }
-    if !cfg.misuse && rng.chance(1, 5) {
+    // fast-forwards: in every sixth history up to two update commands carry a dot far ahead of the author's next
+    // one (a long stretch of ops whose effects are gone): counters cross u8/u16/u31/u32 boundaries in mid-history,
+    // lagging replicas and stale snapshots are then orders of magnitude behind
+    let mut jumps_left = if !cfg.misuse && rng.chance(1, 6) { 2 } else { 0 };
+    const JUMPS: [u64; 6] = [250, 65_530, 70_000, (1 << 31) + 8, (1 << 32) - 3, 1 << 33];
+    if !cfg.misuse && jumps_left == 0 && rng.chance(1, 5) {
         // aged start: every actor has a long past (counters beyond u8 / u16 / u32 ranges) whose effects are gone
         let base: Vec<(u8, u64)> = (0..cfg.nrep).map(|r| (actor_ids[r], [250u64, 65_530, (1 << 32) - 3, 1 << 40][rng.below(4)])).collect();
         if S::aged(&base).is_some() {
@@ -164,7 +169,11 @@ pub fn gen_history<S: Sut>(seed: u64, cfg: Cfg, sweep: Option<Sweep>) -> Outcome
                     go!(Act::Deliver { r, author: w.author[i], seq: w.seqs[i] });
                 }
             }
-            if let Some(cmd) = S::template_cmd(role, &mut rng) {
+            if let Some(mut cmd) = S::template_cmd(role, &mut rng) {
+                if jumps_left > 0 && rng.chance(1, 4) {
+                    cmd.jump = JUMPS[rng.below(JUMPS.len())];
+                    jumps_left -= 1;
+                }
                 go!(Act::Gen { r, actor: actor_ids[r], cmd, old: rng.below(12) });
             }
             if cfg.merges && S::HAS_MERGE && rng.chance(1, 3) {
@@ -247,7 +256,11 @@ pub fn gen_history<S: Sut>(seed: u64, cfg: Cfg, sweep: Option<Sweep>) -> Outcome
         }
         if choice < 4 || w.ops.is_empty() {
             let actor = if cfg.misuse && rng.chance(1, 3) { 7 } else { actor_ids[r] };
-            let cmd = S::random_cmd(&mut rng, &w.sh);
+            let mut cmd = S::random_cmd(&mut rng, &w.sh);
+            if jumps_left > 0 && rng.chance(1, 5) {
+                cmd.jump = JUMPS[rng.below(JUMPS.len())];
+                jumps_left -= 1;
+            }
             go!(Act::Gen { r, actor, cmd, old: rng.below(12) });
         } else if choice < 8 || !cfg.merges || !S::HAS_MERGE {
             // delivery, restricted by policy
